@@ -828,3 +828,51 @@ def keyval_model(facts):
                 ins = [a[0][2][0][2].get('tag') if isinstance(a[0], tuple) and len(a[0]) == 3 and a[0][1] == I + 'Table' else '?' for nm, a in it.calls if nm == 'insert' and a]
                 sp = st[2]['current_table'][2].get('span')
                 yield case, {'ok': ok, 'inserted': ins, 'span': sp[2][0] if isinstance(sp, tuple) and len(sp) > 2 else None, 'npath': npath, 'occ': occ, 'child': child}
+
+
+
+def visit_table_model(rep, R, facts):
+    """encode::visit_table evaluated with the writes recorded, for a table that is explicit / implicit, holds nothing / a value / dotted-key values only / a
+    sub-table only, at the root / under a path, as a `[table]` / a `[[table]]` element: a header is written exactly when the table is not the root and is an
+    array element, or explicit, or has rows of its own; every row of get_values() is written after it — rows are never written without their header"""
+    from .den import RecInterp, Evaluator, EvalPanic, Unanalysable
+    I, V = 'toml_edit::item::Item::', 'toml_edit::value::Value::'
+    d = 'toml_edit::encode::visit_table'
+    if not facts.has_body(d):
+        rep.incomplete(R, 'visit_table', f'`{d}` not found')
+        return
+    b = facts.body(d)
+    NONE_ = ('ctor', 'core::option::Option::None')
+    key = lambda n: ('struct', 'toml_edit::key::Key', {'key': n, 'repr': ('opaque',), 'leaf_decor': ('opaque',), 'dotted_decor': ('opaque',)})
+    scal = lambda n: ('ctor', I + 'Value', (('ctor', V + 'Integer', (('elem', n),)),))
+    tab = lambda dotted, implicit, kids: ('struct', 'toml_edit::table::Table', {'items': kids, 'dotted': dotted, 'implicit': implicit, 'doc_position': ('opaque',), 'span': ('opaque',),
+                                                                                  'decor': ('struct', 'toml_edit::repr::Decor', {'prefix': NONE_, 'suffix': NONE_})})
+    contents = {'nothing': ((), 0), 'a value': (((key('v'), scal('v')),), 1),
+                'dotted-key values only': (((key('d'), ('ctor', I + 'Table', (tab(True, True, ((key('d.x'), scal('d.x')),)),))),), 1),
+                'a sub-table only': (((key('s'), ('ctor', I + 'Table', (tab(False, False, ((key('s.x'), scal('s.x')),)),))),), 0)}
+    rec = {'open_table_header', 'close_table_header', 'open_array_of_tables_header', 'close_array_of_tables_header', 'keyval_sep', 'prefix_encode', 'suffix_encode', 'write_str'}
+    for implicit in (False, True):
+        for cname, (kids, nrows) in contents.items():
+            for at_root in (True, False):
+                for is_array in (False, True):
+                    label = f'{"implicit" if implicit else "explicit"} {"[[table]] element" if is_array else "table"} {"at the root" if at_root else "under a path"} holding {cname}'
+                    it = RecInterp(Evaluator(facts), rec, {'encode_key_path', 'encode_key_path_ref', 'encode_value'})
+                    try:
+                        it.apply_fn(b, [('opaque',), NONE_, tab(False, implicit, kids), () if at_root else (key('t'),), is_array, True])
+                    except EvalPanic as ex:
+                        rep.bad(R, f'visit_table|{label}', f'visit_table panics for an {label}: {ex}', facts.loc(b))
+                        continue
+                    except Unanalysable as ex:
+                        rep.incomplete(R, f'visit_table|{label}', f'cannot evaluate visit_table: {ex}', facts.loc(b))
+                        continue
+                    ev = [c[0] for c in it.calls]
+                    head = 'aot' if 'open_array_of_tables_header' in ev else 'std' if 'open_table_header' in ev else None
+                    want = None if at_root else ('aot' if is_array else ('std' if (not implicit or nrows) else None))
+                    rows = ev.count('encode_value')
+                    first_row = ev.index('encode_value') if rows else len(ev)
+                    head_pos = max([i for i, x in enumerate(ev) if x in ('close_table_header', 'close_array_of_tables_header')] or [-1])
+                    ok = head == want and rows == nrows and head_pos < first_row and ev.count('keyval_sep') == nrows
+                    rep.check(R, f'visit_table|{label}', ok, f'header {head or "none"}, {rows} row(s)',
+                              f'visit_table for an {label} writes header {head or "none"} (expected {want or "none"}) and {rows} row(s) (expected {nrows}, after the header): '
+                              + ('the rows are printed under the previous header, so they land in another table' if rows and not head and not at_root else
+                                 'a table appears, vanishes or loses values in the printed text'), facts.loc(b))
